@@ -41,8 +41,8 @@ m('c01-combine-latest-emit-on-all', ['C01'], 'streamz/core.py',
   "        if not self.missing and (who in self.emit_on or who is self.upstreams[0]):",
   'emit_on ignored for the first input')
 m('c01-collect-keeps-cache', ['C01', 'C05'], 'streamz/core.py',
-  "        self._emit(out, metadata)\n        self._release_refs(metadata)\n        self.cache.clear()\n        self.metadata_cache.clear()",
-  "        self._emit(out, metadata)\n        self._release_refs(metadata)\n        self.metadata_cache.clear()\n        if len(self.cache) % 3:\n            self.cache.clear()",
+  "        self._release_refs(metadata)\n        self.cache.clear()\n        self.metadata_cache.clear()\n        if result and self.loop is not None:",
+  "        self._release_refs(metadata)\n        self.metadata_cache.clear()\n        if len(self.cache) % 3:\n            self.cache.clear()\n        if result and self.loop is not None:",
   'collect forgets to clear when the cache size is a multiple of 3')
 m('c01-filter-none-predicate', ['C01'], 'streamz/core.py',
   "        if self.predicate(x, *self.args, **self.kwargs):\n            return self._emit(x, metadata=metadata)",
@@ -184,13 +184,13 @@ m('c10-map-async-drop-md', ['C10', 'C04'], 'streamz/core.py',
   'map_async drops single-dict metadata')
 # ---- C13 / C14 -------------------------------------------------------------
 m('c13-forget-queued-slots', ['C13'], 'streamz/core.py',
-  "        self.next = max(now, self.next) + self.interval\n        if now < old_next:",
-  "        self.next = now + self.interval\n        if now < old_next:",
-  'bursts of three or more are spaced too closely')
+  "            self.next = time() + self.interval\n        yield self._emit(x, metadata=metadata)",
+  "            self.next = now + self.interval\n        yield self._emit(x, metadata=metadata)",
+  'the next slot is counted from the arrival, not from the departure: elements that waited leave too closely')
 m('c13-sleep-short', ['C13'], 'streamz/core.py',
-  "            yield gen.sleep(old_next - now)\n        yield self._emit(x, metadata=metadata)\n        self._release_refs(metadata)",
-  "            yield gen.sleep((old_next - now) / 2 if old_next - now > self.interval else old_next - now)\n        yield self._emit(x, metadata=metadata)\n        self._release_refs(metadata)",
-  'the third element of a burst waits half as long')
+  "            if now < self.next:\n                yield gen.sleep(self.next - now)\n            self.next = time() + self.interval",
+  "            if now < self.next:\n                yield gen.sleep((self.next - now) / 2 if self.next - now > self.interval / 2 else self.next - now)\n            self.next = time() + self.interval",
+  'long waits are cut in half')
 m('c14-read-next-after-emit', ['C14'], 'streamz/core.py',
   "            self._dirty = False\n            [x] = self.next\n            metadata = self.next_metadata\n            self._delivering = True\n            yield self._emit(x, metadata)",
   "            [x] = self.next\n            metadata = self.next_metadata\n            self._delivering = True\n            yield self._emit(x, metadata)\n            self._dirty = False",
@@ -269,8 +269,8 @@ m('c19-no-percolate-down', ['C19'], 'streamz/core.py',
   "            for downstream in self.downstreams:\n                if downstream and False:\n                    downstream._inform_loop(loop)",
   'a loop learnt later is not passed to existing children')
 m('c19-inherit-nothing', ['C19'], 'streamz/core.py',
-  "            for upstream in self.upstreams:\n                if upstream and upstream.asynchronous:\n                    self.asynchronous = upstream.asynchronous\n                    break",
-  "            pass",
+  "                if upstream and upstream.asynchronous:\n                    # also tells the other upstreams, which may not have a\n                    # mode yet (they get the loop through _set_loop)\n                    self._inform_asynchronous(upstream.asynchronous)\n                    break",
+  "                pass",
   'children do not inherit the asynchronous mode')
 m('c19-new-loop-each-time', ['C19'], 'streamz/core.py',
   "    if not _io_loops:\n        loop = IOLoop(make_current=False)",
@@ -286,12 +286,12 @@ m('c20-accumulate-new-state', ['C20'], 'streamz/dask.py',
   "            result = client.submit(self.func, self.state, x, **self.kwargs)\n            if self.returns_state:\n                state = client.submit(getitem, result, 1)\n                result = client.submit(getitem, result, 1)",
   'returns_state keeps the result as the state')
 m('c20-gather-no-order', ['C20'], 'streamz/dask.py',
-  "            if previous is not None:\n                yield previous\n",
-  "",
+  "            result = yield client.gather(x, asynchronous=True)\n            if previous is not None:\n                yield previous\n",
+  "            result = yield client.gather(x, asynchronous=True)\n",
   'gather emits in completion order')
 m('c20-scatter-release-early', ['C20'], 'streamz/dask.py',
-  "        f = yield self._emit(future, metadata=metadata)\n        self._release_refs(metadata)\n\n        raise gen.Return(f)",
-  "        self._release_refs(metadata)\n        f = yield self._emit(future, metadata=metadata)\n\n        raise gen.Return(f)",
+  "            emitted = self._emit(future, metadata=metadata)\n        finally:\n            turn.set_result(None)\n        f = yield emitted\n        self._release_refs(metadata)",
+  "            self._release_refs(metadata)\n            emitted = self._emit(future, metadata=metadata)\n        finally:\n            turn.set_result(None)\n        f = yield emitted",
   'scatter releases before the element was handed on')
 m('c20-starmap-drops-kwargs', ['C20'], 'streamz/dask.py',
   "        result = client.submit(apply, self.func, x, self.kwargs)",
